@@ -18,13 +18,13 @@ import (
 )
 
 type Config struct {
-	Worker     string // worker binary
-	PkgFile    string // packages.ndjson
-	Procs      int
-	MemKB      int           // ulimit -v
-	OpTimeout  time.Duration // watchdog per micro-op
-	Resumable  map[string]bool
-	MaxFatal   int // stop feeding commands after this many crashes+timeouts+ooms (default 120)
+	Worker    string // worker binary
+	PkgFile   string // packages.ndjson
+	Procs     int
+	MemKB     int           // ulimit -v
+	OpTimeout time.Duration // watchdog per micro-op
+	Resumable map[string]bool
+	MaxFatal  int // stop feeding commands after this many crashes+timeouts+ooms (default 120)
 }
 
 // Cmd mirrors workerlib.Cmd loosely: raw JSON with the few fields the supervisor needs.
